@@ -17,7 +17,7 @@ Proof.
 Qed.
 Print Assumptions C04_activation_only_when_condition_holds.
 
-(* a Watch outside alarm bodies runs its body at most once: its lines start at most once (C02's theorem, restated) *)
+(* a Watch outside Alarm and Macro bodies runs its body at most once: its lines start at most once (C02's theorem, restated) *)
 Theorem C04_watch_body_lines_start_once : forall p ts main s now m,
   C02_proofs.under_alarm p m = false -> C02_proofs.is_blank p m = false ->
   Forall (fun s' => (started (st s m) = true -> started (st s' m) = true) /\
@@ -42,7 +42,7 @@ Qed.
 Print Assumptions C04_no_handler_left_after_the_block_ended.
 
 (* PARTIAL. Decided by the Coq monitor on the real interpreter: a body line starts only while its Watch / Alarm is
-   activated; a Watch outside alarm bodies never loses its activation; nothing of a body starts after the enclosing block
+   activated; a Watch outside Alarm and Macro bodies never loses its activation; nothing of a body starts after the enclosing block
    has ended. Cancel and force are not modelled (stage D). Observed and recorded in DESIGN.md: a Watch / Alarm nested
    inside an interrupt body is executed both inline by the enclosing generator and by its own interrupt -- the two
    generators share the node state, the body lines still run once per activation, but the alarm's run counter advances by
